@@ -17,6 +17,7 @@ statement on the real code on every run.)
 -/
 import Nebula.Lemmas.PayloadEnv
 import Nebula.Lemmas.PayloadAgree
+import Nebula.Lemmas.PayloadRepeat
 
 namespace Nebula.Props.C08
 open Nebula.Wire Nebula.Payload Nebula.Spec.HandshakeSchema
@@ -212,6 +213,70 @@ example : unmarshalPayload [0x0a, 0x02, 0x10, 0x07, 0x0a, 0x04, 0x10, 0x08, 0x18
       .ok { initiatorIndex := 8, responderIndex := 3 } ∧
     (decode [0x0a, 0x02, 0x10, 0x07, 0x0a, 0x04, 0x10, 0x08, 0x18, 0x03]).map (fun m => toPayload m.details) =
       some { initiatorIndex := 8, responderIndex := 3 } := by
+  decide
+
+/-- REPEATED SINGULAR FIELDS: LAST WINS, IN BOTH DECODERS.  Take any message made of `Details` occurrences
+`tss` (each any sequence of well-formed conforming records: known fields any number of times, unknown
+fields in between), whose last `Details` occurrence so far holds the records `ts`.  Appending one more
+occurrence `t` of a singular field (Cert, InitiatorIndex, ResponderIndex, Time or CertVersion) -- inside
+that same `Details` occurrence (`ts` arbitrary) or as a `Details` occurrence of its own (`ts = []`) --
+makes BOTH `UnmarshalPayload` and the schema decoder succeed and return exactly `t`'s value for that
+field, whatever earlier occurrences (empty, non-empty, longer, shorter) said.  (Seeded change C08-5, which
+concatenates Cert occurrences, violates exactly this statement.) -/
+theorem repeated_singular_last_wins (tss : List (List Tok)) (ts : List Tok) (t : Tok)
+    (hall : ∀ ts' ∈ tss, ∀ t' ∈ ts', t'.wf ∧ t'.conforms) (hts : ∀ t' ∈ ts, t'.wf ∧ t'.conforms)
+    (ht : t.wf ∧ t.conforms) (hn : t.num = 1 ∨ t.num = 2 ∨ t.num = 3 ∨ t.num = 5 ∨ t.num = 8)
+    (hlen : ∀ ts' ∈ tss, (encodeToks ts').length < 2 ^ 64) (hlen' : (encodeToks (ts ++ [t])).length < 2 ^ 64) :
+    ∃ p m, unmarshalPayload (detailsMsg (tss ++ [ts ++ [t]])) = .ok p ∧
+      decode (detailsMsg (tss ++ [ts ++ [t]])) = some m ∧
+      p.field t.num = some t.val ∧ (toPayload m.details).field t.num = some t.val := by
+  have hall' : ∀ ts' ∈ tss ++ [ts ++ [t]], ∀ t' ∈ ts', t'.wf ∧ t'.conforms := by
+    intro ts' h' t' ht'
+    rcases List.mem_append.mp h' with h' | h'
+    · exact hall ts' h' t' ht'
+    · rw [List.mem_singleton.mp h'] at ht'
+      rcases List.mem_append.mp ht' with h'' | h''
+      · exact hts t' h''
+      · rw [List.mem_singleton.mp h'']; exact ht
+  have hlenA : ∀ ts' ∈ tss ++ [ts ++ [t]], (encodeToks ts').length < 2 ^ 64 := by
+    intro ts' h'
+    rcases List.mem_append.mp h' with h' | h'
+    · exact hlen ts' h'
+    · rw [List.mem_singleton.mp h']; exact hlen'
+  have e : (tss ++ [ts ++ [t]]).flatten.foldl applyDetails {} =
+      applyDetails ((tss.flatten ++ ts).foldl applyDetails {}) t := by
+    simp [List.foldl_append]
+  obtain ⟨m, hm, hd⟩ := decode_detailsMsg _ (fun ts' h' t' ht' => (hall' ts' h' t' ht').1) hlenA
+  refine ⟨_, m, unmarshalPayload_detailsMsg _ hall' hlenA, hm, ?_, ?_⟩
+  · rw [e]; exact field_applyDetails _ t ht.2 hn
+  · rw [hd, e]; exact field_applyDetails _ t ht.2 hn
+
+-- non-vacuity: the three witnesses of seeded change C08-5 are instances (hypotheses hold, and the bytes are
+-- the ones of the witnesses), and on them both decoders return the LAST Cert
+example : detailsMsg ([] ++ [[(⟨1, .bytes [0x64, 0x65]⟩ : Tok), ⟨2, .varint 42⟩] ++ [⟨1, .bytes [0x72, 0x65, 0x61]⟩]]) =
+      [0x0a, 0x0b, 0x0a, 0x02, 0x64, 0x65, 0x10, 0x2a, 0x0a, 0x03, 0x72, 0x65, 0x61] ∧
+    (∀ t' ∈ [(⟨1, .bytes [0x64, 0x65]⟩ : Tok), ⟨2, .varint 42⟩, ⟨1, .bytes [0x72, 0x65, 0x61]⟩], t'.wf ∧ t'.conforms) := by
+  refine ⟨by decide, ?_⟩
+  simp [Tok.wf, Tok.conforms, maxValidNumber]
+
+example : unmarshalPayload [0x0a, 0x0b, 0x0a, 0x02, 0x64, 0x65, 0x10, 0x2a, 0x0a, 0x03, 0x72, 0x65, 0x61] =
+      .ok { cert := [0x72, 0x65, 0x61], initiatorIndex := 42 } ∧
+    (decode [0x0a, 0x0b, 0x0a, 0x02, 0x64, 0x65, 0x10, 0x2a, 0x0a, 0x03, 0x72, 0x65, 0x61]).map (fun m => toPayload m.details) =
+      some { cert := [0x72, 0x65, 0x61], initiatorIndex := 42 } := by
+  decide
+
+-- Cert "stale" then an empty Cert: the empty one wins
+example : unmarshalPayload [0x0a, 0x09, 0x0a, 0x05, 0x73, 0x74, 0x61, 0x6c, 0x65, 0x0a, 0x00] = .ok {} ∧
+    (decode [0x0a, 0x09, 0x0a, 0x05, 0x73, 0x74, 0x61, 0x6c, 0x65, 0x0a, 0x00]).map (fun m => toPayload m.details) = some {} := by
+  decide
+
+-- a Cert in each of two `Details` occurrences (tss = [[Cert "fi", InitiatorIndex 5]], ts = [], t = Cert "sec")
+example : detailsMsg ([[(⟨1, .bytes [0x66, 0x69]⟩ : Tok), ⟨2, .varint 5⟩]] ++ [[] ++ [⟨1, .bytes [0x73, 0x65, 0x63]⟩]]) =
+      [0x0a, 0x06, 0x0a, 0x02, 0x66, 0x69, 0x10, 0x05, 0x0a, 0x05, 0x0a, 0x03, 0x73, 0x65, 0x63] ∧
+    unmarshalPayload [0x0a, 0x06, 0x0a, 0x02, 0x66, 0x69, 0x10, 0x05, 0x0a, 0x05, 0x0a, 0x03, 0x73, 0x65, 0x63] =
+      .ok { cert := [0x73, 0x65, 0x63], initiatorIndex := 5 } ∧
+    (decode [0x0a, 0x06, 0x0a, 0x02, 0x66, 0x69, 0x10, 0x05, 0x0a, 0x05, 0x0a, 0x03, 0x73, 0x65, 0x63]).map
+      (fun m => toPayload m.details) = some { cert := [0x73, 0x65, 0x63], initiatorIndex := 5 } := by
   decide
 
 end Nebula.Props.C08
